@@ -334,9 +334,9 @@ end
 /-- non-vacuity: a replay, an expiry, a refused oversize body; and the repaired F12a shape — the response
     stored for the selection [(10, 20)] is NOT replayed for [(10, 21), (11, 22)]. -/
 example : ((crun ⟨1000, 100, 100000⟩ (Cache.init 0 false 0)
-        ([.resp 1 2 [(10, 20)] ⟨5, 200, 6, none, none, none⟩ 3 120, .req 1 2 [(10, 20)],
+        ([.resp 1 2 [(10, 20)] ⟨5, 200, 6, none, none, none, true, none⟩ 3 120, .req 1 2 [(10, 20)],
       .req 1 2 [(10, 21), (11, 22)],
-      .skip 1001, .req 1 2 [(10, 20)], .resp 1 2 [(10, 21)] ⟨5, 200, 6, none, none, none⟩ 101 120,
+      .skip 1001, .req 1 2 [(10, 20)], .resp 1 2 [(10, 21)] ⟨5, 200, 6, none, none, none, true, none⟩ 101 120,
       .req 1 2 [(10, 21)]] : List (POp Nat))).map fun r => match r.out with | .early .. => 1 | _ => 0)
       = [0, 1, 0, 0, 0, 0, 0] := by decide
 
@@ -371,15 +371,15 @@ theorem shared_not_isolated_witness :
     ∃ (t0 : Int) (ops : List (SOp Nat)),
       sholds false (srun (Cache.init t0 false 0) ops) = true ∧
       sholds true (srun (Cache.init t0 false 0) ops) = false :=
-  ⟨0, [.resp ⟨⟨10, 100, 1000⟩, 1⟩ 1 2 [(10, 20)] ⟨5, 200, 6, none, none, none⟩ 3 50, .skip 5,
+  ⟨0, [.resp ⟨⟨10, 100, 1000⟩, 1⟩ 1 2 [(10, 20)] ⟨5, 200, 6, none, none, none, true, none⟩ 3 50, .skip 5,
        .req ⟨⟨1, 100, 1000⟩, 1⟩ 1 2 [(10, 20)]], by decide, by decide⟩
 
 /-- non-vacuity of `shared_cache_holds`: a different NUMBER of configured paths isolates (keys differ), a shrunken
     size limit refuses the next store but keeps what is held (60 bytes under the new limit 50). -/
 example : ((srun (Cache.init 0 false 0)
-    ([.resp ⟨⟨10, 100, 1000⟩, 1⟩ 1 2 [(10, 20)] ⟨5, 200, 6, none, none, none⟩ 3 60,
+    ([.resp ⟨⟨10, 100, 1000⟩, 1⟩ 1 2 [(10, 20)] ⟨5, 200, 6, none, none, none, true, none⟩ 3 60,
       .req ⟨⟨10, 100, 1000⟩, 2⟩ 1 2 [(10, 20)], .req ⟨⟨1, 100, 50⟩, 1⟩ 1 2 [(10, 20)],
-      .resp ⟨⟨10, 100, 50⟩, 1⟩ 1 3 [] ⟨5, 200, 6, none, none, none⟩ 3 10, .req ⟨⟨10, 100, 50⟩, 1⟩ 1 3 [],
+      .resp ⟨⟨10, 100, 50⟩, 1⟩ 1 3 [] ⟨5, 200, 6, none, none, none, true, none⟩ 3 10, .req ⟨⟨10, 100, 50⟩, 1⟩ 1 3 [],
       .probe] : List (SOp Nat))).map fun r =>
         match r.out with | .early .. => 1 | .probed t h _ _ => t + h | _ => 0)
     = [0, 0, 1, 0, 0, 120] := by decide
@@ -406,7 +406,8 @@ theorem throttle_holds_exact (cfg : TCfg) (t0 : Int) (ops : List (POp σ)) :
   throttle_holds absTtlExact absTtlExact_ok cfg t0 ops
 
 /-- Relative Retry-After, all histories: a replay at `t` carries `original − elapsed` (> 0), where the original
-    value `n` and the store instant `t₀` are those of an earlier relevant response for the same (method, URL);
+    value `n` (`origNs`: the numeric Retry-After, or the distance from `t₀` to an HTTP-date) and the store instant
+    `t₀` are those of an earlier relevant response for the same (method, URL);
     hence nothing is replayed once `elapsed ≥ original`. -/
 theorem retry_after_decrement (f : AbsTtl) (cfg : TCfg) (hrel : cfg.type = .rel) (t0 : Int) (ops : List (POp σ))
     (pre post : List (PRec σ)) (r : PRec σ) (m u : σ) (sel : List (σ × σ))
@@ -415,7 +416,7 @@ theorem retry_after_decrement (f : AbsTtl) (cfg : TCfg) (hrel : cfg.type = .rel)
     (hop : r.op = .req m u sel) (hout : r.out = .early st body tag ra) :
     ∃ r0, r0 ∈ pre ∧ ∃ sel0 rr bl sz n, r0.op = .resp m u sel0 rr bl sz ∧
       cfg.statuses.contains rr.status = true ∧ rr.status = st ∧ rr.body = body ∧ rr.tag = tag ∧
-      rr.raNs = some n ∧ r0.t ≤ r.t ∧ r.t - r0.t < n ∧ ra = .ns (n - (r.t - r0.t)) := by
+      origNs rr r0.t = some n ∧ r0.t ≤ r.t ∧ r.t - r0.t < n ∧ ra = .ns (n - (r.t - r0.t)) := by
   -- the relative type never consults `f`: run the same history with exact arithmetic
   have hsame : ∀ (c : TCache σ) (op : POp σ), tstep f cfg c op = tstep absTtlExact cfg c op := by
     intro c op
@@ -444,7 +445,7 @@ theorem retry_after_decrement (f : AbsTtl) (cfg : TCfg) (hrel : cfg.type = .rel)
   refine ⟨r0, List.mem_reverse.mp hm, ?_⟩
   cases hop0 : r0.op with
   | resp m0 u0 sel0 rr bl sz =>
-    cases hra : rr.raNs with
+    cases hra : origNs rr r0.t with
     | none => simp [tJustifies, hop0, hrel, hra] at hj
     | some n =>
       simp only [tJustifies, hop0, hrel, hra, Bool.and_eq_true, decide_eq_true_eq] at hj
@@ -462,7 +463,7 @@ end
 /-- non-vacuity of `retry_after_decrement`: relative 2 s stored at 0.5 s; replay with 2 s, with 1 ns left one
     ns before the end, nothing at the end. -/
 example : ((trun absTtlExact ⟨.rel, [429]⟩ (Cache.init 500000000 false 0)
-      ([.resp 1 2 [] ⟨5, 429, 6, none, some 7, some 2000000000⟩ 0 0, .req 1 2 [], .skip 1999999999,
+      ([.resp 1 2 [] ⟨5, 429, 6, none, some 7, some 2000000000, true, none⟩ 0 0, .req 1 2 [], .skip 1999999999,
         .req 1 2 [], .skip 1, .req 1 2 []] : List (POp Nat))).map fun r =>
         match r.out with | .early _ _ _ (.ns n) => n | _ => 0)
       = [0, 2000000000, 0, 1, 0, 0] := by decide
@@ -470,7 +471,7 @@ example : ((trun absTtlExact ⟨.rel, [429]⟩ (Cache.init 500000000 false 0)
 /-- non-vacuity of `throttle_holds`, absolute type (the repaired F12b shape): instant 1 s, stored at 0.5 s:
     replayed at exactly 1 s, no longer at 1 s + 1 ns. -/
 example : ((trun absTtlExact ⟨.abs, [429]⟩ (Cache.init 500000000 false 0)
-      ([.resp 1 2 [] ⟨5, 429, 6, none, some 7, some 1000000000⟩ 0 0, .skip 500000000, .req 1 2 [],
+      ([.resp 1 2 [] ⟨5, 429, 6, none, some 7, some 1000000000, true, none⟩ 0 0, .skip 500000000, .req 1 2 [],
         .skip 1, .req 1 2 []] : List (POp Nat))).map fun r =>
         match r.out with | .early .. => 1 | _ => 0)
       = [0, 0, 1, 0, 0] := by decide
